@@ -6,7 +6,7 @@ from beziers.quadraticbezier import QuadraticBezier
 from beziers.cubicbezier import CubicBezier
 
 KINDS = {2: Line, 3: QuadraticBezier, 4: CubicBezier}
-FAMILIES = ['int', 'float', 'grid', 'collinear', 'coincident', 'big', 'tiny']
+FAMILIES = ['int', 'float', 'grid', 'collinear', 'coincident', 'big', 'tiny', 'near', 'smallint']
 
 
 def coords(rng, fam, n):
@@ -27,6 +27,17 @@ def coords(rng, fam, n):
         return [rng.choice(base) for _ in range(n)]
     if fam == 'big':
         return [(rng.uniform(-1e6, 1e6), rng.uniform(-1e6, 1e6)) for _ in range(n)]
+    if fam == 'near':
+        # distinct points that the library's tolerance equality (1e-9 relative) still calls equal, mixed with ordinary ones
+        base = [(float(rng.randint(-900000, 900000)), float(rng.randint(-900, 900))) for _ in range(2)]
+        out = []
+        for _ in range(n):
+            b = rng.choice(base)
+            out.append((b[0] * (1 + rng.choice([0, 0, 4e-10, -3e-10])), b[1] * (1 + rng.choice([0, 0, 5e-10]))))
+        return out
+    if fam == 'smallint':
+        # CPython: hash(-1.0) == hash(-2.0); tiny integer grids exercise hash/equality based shortcuts
+        return [(float(rng.randint(-2, 2)), float(rng.randint(-2, 2))) for _ in range(n)]
     if fam == 'tiny':
         return [(rng.uniform(-1e-3, 1e-3), rng.uniform(-1e-3, 1e-3)) for _ in range(n)]
     raise ValueError(fam)
@@ -63,3 +74,59 @@ def seg_from_json(j):
 def nondegenerate(s):
     ks = {(p.x, p.y) for p in s.points}
     return len(ks) > 1
+
+
+# ----------------------------------------------------------------------------- freshness (stale state) oracle
+def fresh_copy(s):
+    return KINDS[len(s.points)](*[Point(p.x, p.y) for p in s.points])
+
+
+def canon(v):
+    """comparable, exact image of a query result"""
+    if v is None or isinstance(v, (bool, int, str)): return v
+    if isinstance(v, float): return v.hex() if v == v else 'nan'
+    if isinstance(v, Point): return ('P', canon(v.x), canon(v.y))
+    if hasattr(v, 'points'): return (type(v).__name__,) + tuple(canon(p) for p in v.points)
+    if hasattr(v, 'bl') and hasattr(v, 'tr'): return ('BB', canon(v.bl), canon(v.tr))
+    if hasattr(v, 'matrix'): return ('M',) + tuple(canon(float(x)) for r in v.matrix for x in r)
+    if isinstance(v, (list, tuple)): return tuple(canon(x) for x in v)
+    if hasattr(v, 't1') and hasattr(v, 't2'): return ('I', canon(v.t1), canon(v.t2), canon(v.point))
+    return repr(v)
+
+
+def edit_in_place(rng, s):
+    """one of the in-place edits the API offers on a segment; returns its description"""
+    k = rng.randrange(4)
+    i = rng.randrange(len(s.points))
+    if k == 0:
+        s[i] = Point(s[i].x + rng.choice([1.0, -7.5, 0.25, 100.0]), s[i].y + rng.choice([2.0, -3.25, 50.0]))
+        return f'seg[{i}] = <new point>'
+    if k == 1:
+        s.round(); return 'seg.round()'
+    if k == 2:
+        s.points = [Point(p.y, p.x + 1.0) for p in s.points]; return 'seg.points = <new list>'
+    if len(s.points) == 4:
+        try:
+            s.balance(); return 'seg.balance()'
+        except Exception:
+            pass
+    s[i] = Point(s[i].x * 0.5 + 3.0, s[i].y); return f'seg[{i}] = <new point>'
+
+
+def freshness(rng, s, queries):
+    """queries: {name: f(segment)}.  Ask every query (priming any cache), edit the segment in place, ask again and
+    compare with the answers of a freshly constructed segment with the same control points.  Returns failure texts."""
+    s = fresh_copy(s)
+    for q in queries.values():
+        try: q(s)
+        except Exception: pass
+    what = edit_in_place(rng, s)
+    f = fresh_copy(s)
+    out = []
+    for name, q in queries.items():
+        try: a = canon(q(s))
+        except Exception as e: a = ('raised', type(e).__name__)
+        try: b = canon(q(f))
+        except Exception as e: b = ('raised', type(e).__name__)
+        if a != b: out.append(f'after {what}, {name} on the edited object differs from the same query on a fresh object with the same control points: {a} vs {b}')
+    return out
